@@ -716,6 +716,90 @@ pub fn replay_header_export(path: &str, prop: &str, seed: u64, rep: &mut Report)
     }
 }
 
+/// One entry point on one input, judged against the byte-level oracle (and, for the Stream entry points, against the
+/// one-shot decoder).  Shared by the replay of MC_EntryPoints and by `--replay` of its violations.
+pub fn judge_entry_point(ep: &str, data: &[u8], opt: Opt, props: Props, built_with: Option<u64>, rule: &str) -> Result<Vec<String>, String> {
+    let e = expect_lzma(data, opt, None);
+    let o = api::options(opt, None, false);
+    let one = api::lzma_bytes_consumed(data, &o);
+    let hl = opt.header_len();
+    let field = if hl == 13 && data.len() >= 13 {
+        let mut b = [0u8; 8];
+        b.copy_from_slice(&data[5..13]);
+        let v = u64::from_le_bytes(b);
+        if v == u64::MAX { None } else { Some(v) }
+    } else {
+        None
+    };
+    let size_eff = crate::oracle::size_in_effect(opt, field);
+    let (out, consumed): (api::Outcome, Option<usize>) = match ep {
+        "resized" => {
+            if data.len() < hl {
+                return Ok(vec![]);
+            }
+            let dict_hdr = u32::from_le_bytes([data[1], data[2], data[3], data[4]]).max(4096);
+            let (o, c) = api::raw_lzma_resized(&data[hl..], props.lc, props.lp, props.pb, dict_hdr, built_with, size_eff);
+            (o, Some(c + hl))
+        }
+        "plain" => {
+            let (o, c) = api::lzma_plain_consumed(data);
+            (o, Some(c))
+        }
+        "oneshot" => (api::Outcome { verdict: one.0.verdict, out: one.0.out.clone(), msg: one.0.msg.clone() }, Some(one.1)),
+        "blocks" => {
+            let (o, c) = api::lzma_blocks_consumed(data, &o);
+            (o, Some(c))
+        }
+        "stream1" | "streamN" => {
+            let cuts: Vec<usize> = if ep == "stream1" { vec![] } else { (1..data.len()).collect() };
+            let r = api::stream_run(data, &cuts, &o);
+            (api::Outcome { verdict: r.verdict, out: r.out, msg: r.msg }, None)
+        }
+        other => return Err(format!("unknown entry point {}", other)),
+    };
+    let mut vs: Vec<String> = vec![];
+    match out.verdict {
+        Verdict::Panic => vs.push(format!("panic: {}", out.msg)),
+        Verdict::Ok => match e.v {
+            Exp::Err => vs.push(format!("accepted ({} bytes) although the rules say error ({})", out.out.len(), e.class)),
+            _ => {
+                if out.out != e.out {
+                    vs.push(format!("output of {} bytes, the stream defines {}", out.out.len(), e.out.len()));
+                } else if let (Some(c1), Some(ec)) = (consumed, e.consumed) {
+                    if e.v == Exp::Ok && c1 != ec {
+                        vs.push(format!("consumed {} input bytes, the payload ends at {} (rule: {})", c1, ec, rule));
+                    }
+                }
+            }
+        },
+        Verdict::Err => {
+            if e.v == Exp::Ok {
+                vs.push(format!("rejected although the rules say success: {}", out.msg));
+            }
+        }
+    }
+    // C05: whatever the rules leave open, the streaming decoder must side with the one-shot decoder
+    if vs.is_empty() && ep.starts_with("stream") && one.0.verdict != Verdict::Panic && out.verdict != Verdict::Panic {
+        if (out.verdict == Verdict::Ok) != (one.0.verdict == Verdict::Ok) || (out.verdict == Verdict::Ok && out.out != one.0.out) {
+            vs.push(format!("{} gives {:?} ({} bytes), the one-shot decoder {:?} ({} bytes)", ep, out.verdict, out.out.len(), one.0.verdict, one.0.out.len()));
+        }
+    }
+    Ok(vs)
+}
+
+/// `--replay` of a violation found by replay_entry_points.
+pub fn replay_ep(v: &Value, prop: &str, rep: &mut Report) {
+    let c: LzmaCase = serde_json::from_value(v.clone()).expect("lzma case");
+    let data = c.bytes();
+    let ep = v["entry_point"].as_str().unwrap_or("oneshot");
+    rep.eval(1, true);
+    match judge_entry_point(ep, &data, c.opt, c.props, v["built_with"].as_u64(), "") {
+        Ok(vs) if !vs.is_empty() => rep.violation(prop, format!("replayed {}: {}", ep, vs.join("; ")), v.clone()),
+        Ok(_) => {}
+        Err(m) => rep.tool_error(m),
+    }
+}
+
 /// Replay of MC_EntryPoints: every case of the end / size rules (option x header field class x supplied size class
 /// x marker x cut x trailing bytes) is instantiated with three payloads whose last symbol is a copy, and decoded
 /// through all entry points the case names (plain, oneshot, building blocks, Stream in one write, Stream bytewise).
@@ -807,69 +891,23 @@ pub fn replay_entry_points(path: &str, prop: &str, seed: u64, rounds: usize, rep
             if tv == "any" {
                 rep.count("entry_points_rule_leaves_open");
             }
-            let o = api::options(opt, None, false);
-            let one = api::lzma_bytes_consumed(&data, &o);
+            
+            
             let mut eps: Vec<String> = v["eps"].as_array().unwrap().iter().map(|x| x.as_str().unwrap().to_string()).collect();
             // not an entry point of the model but the same rules: a raw decoder built with another size and told the
             // size in effect through reset(Some(size))
             eps.push("resized".into());
             for ep in &eps {
                 let ep = ep.as_str();
-                let (out, consumed): (api::Outcome, Option<usize>) = match ep {
-                    "resized" => {
-                        let hl = opt.header_len();
-                        let built_with = if n % 2 == 0 { Some(3u64) } else { None };
-                        let dict_hdr = u32::from_le_bytes([data[1], data[2], data[3], data[4]]).max(4096);
-                        let (o, c) = api::raw_lzma_resized(&data[hl..], props.lc, props.lp, props.pb, dict_hdr, built_with, size_eff);
-                        (o, Some(c + hl))
-                    }
-                    "plain" => {
-                        let (o, c) = api::lzma_plain_consumed(&data);
-                        (o, Some(c))
-                    }
-                    "oneshot" => (api::Outcome { verdict: one.0.verdict, out: one.0.out.clone(), msg: one.0.msg.clone() }, Some(one.1)),
-                    "blocks" => {
-                        let (o, c) = api::lzma_blocks_consumed(&data, &o);
-                        (o, Some(c))
-                    }
-                    "stream1" | "streamN" => {
-                        let cuts: Vec<usize> = if ep == "stream1" { vec![] } else { (1..data.len()).collect() };
-                        let r = api::stream_run(&data, &cuts, &o);
-                        (api::Outcome { verdict: r.verdict, out: r.out, msg: r.msg }, None)
-                    }
-                    other => {
-                        rep.tool_error(format!("unknown entry point {}", other));
+                let built_with = if n % 2 == 0 { Some(3u64) } else { None };
+                rep.eval(hash_of(&(hex(&data), ep, format!("{:?}", opt))), true);
+                let vs = match judge_entry_point(ep, &data, opt, *props, built_with, &v["consumed"].to_string()) {
+                    Ok(vs) => vs,
+                    Err(m) => {
+                        rep.tool_error(m);
                         continue;
                     }
                 };
-                rep.eval(hash_of(&(hex(&data), ep, format!("{:?}", opt))), true);
-                let mut vs: Vec<String> = vec![];
-                match out.verdict {
-                    Verdict::Panic => vs.push(format!("panic: {}", out.msg)),
-                    Verdict::Ok => match e.v {
-                        Exp::Err => vs.push(format!("accepted ({} bytes) although the rules say error ({})", out.out.len(), e.class)),
-                        _ => {
-                            if out.out != e.out {
-                                vs.push(format!("output of {} bytes, the stream defines {}", out.out.len(), e.out.len()));
-                            } else if let (Some(c1), Some(ec)) = (consumed, e.consumed) {
-                                if e.v == Exp::Ok && c1 != ec {
-                                    vs.push(format!("consumed {} input bytes, the payload ends at {} (rule: {})", c1, ec, v["consumed"]));
-                                }
-                            }
-                        }
-                    },
-                    Verdict::Err => {
-                        if e.v == Exp::Ok {
-                            vs.push(format!("rejected although the rules say success: {}", out.msg));
-                        }
-                    }
-                }
-                // C05: whatever the rules leave open, the streaming decoder must side with the one-shot decoder
-                if vs.is_empty() && ep.starts_with("stream") && one.0.verdict != Verdict::Panic && out.verdict != Verdict::Panic {
-                    if (out.verdict == Verdict::Ok) != (one.0.verdict == Verdict::Ok) || (out.verdict == Verdict::Ok && out.out != one.0.out) {
-                        vs.push(format!("{} gives {:?} ({} bytes), the one-shot decoder {:?} ({} bytes)", ep, out.verdict, out.out.len(), one.0.verdict, one.0.out.len()));
-                    }
-                }
                 if !vs.is_empty() {
                     let case = LzmaCase {
                         api: if ep.starts_with("stream") { "stream".into() } else { "oneshot".into() },
@@ -888,7 +926,8 @@ pub fn replay_entry_points(path: &str, prop: &str, seed: u64, rounds: usize, rep
                         origin: format!("tlc:MC_EntryPoints:{}:payload{}", ep, pi),
                     };
                     let mut cj = serde_json::to_value(&case).unwrap();
-                    cj["kind"] = json!("lzma");
+                    cj["kind"] = json!("ep");
+                    cj["built_with"] = json!(built_with);
                     cj["entry_point"] = json!(ep);
                     cj["tlc_case"] = v.clone();
                     rep.violation(prop, format!("{} [{}]: {}", ep, l.chars().take(160).collect::<String>(), vs.join("; ")), cj);
